@@ -46,4 +46,12 @@ example : (dial {} [.stall] []).1.trace = [.connect, .deadline, .stall true, .cl
     no function of client.go, client_120.go, smtp/smtp.go, smtp/smtp_ehlo.go leaves a mutex held on any path. -/
 theorem no_path_keeps_a_lock : Generated.lockFlowProblems = [] := rfl
 
+/-- The connection attempt itself is bounded too. Fact regenerated from client.go: in
+    `DialToSMTPClientWithContext` the context `ctx` is derived from the caller's with the configured
+    timeout as deadline, and EVERY call of the dial function - the one for the configured port and the
+    one for the fallback port - is given that `ctx`, not the caller's context. -/
+theorem every_connection_attempt_gets_the_bounded_context :
+    Generated.dialCtxDerivation = "context.WithDeadline(ctxDial, time.Now().Add(c.connTimeout))" ∧
+    Generated.dialCtxArgs ≠ [] ∧ ∀ a ∈ Generated.dialCtxArgs, a = "ctx" := by decide
+
 end GoMail.Props.C17
